@@ -61,8 +61,12 @@ def cleanly_tagged(cls, src, spans):
     for op, closer in openers(cls):
         i = src.find(op)
         while i >= 0:
-            if i not in starts and src.find(closer, i + len(op)) >= 0:
-                return False
+            if i not in starts:
+                if op.startswith('&dtml'):
+                    if possible_entity_at(src, i):
+                        return False
+                elif src.find(closer, i + len(op)) >= 0:
+                    return False
             i = src.find(op, i + 1)
     # no opener may start inside an emitted tag either (apart from the tag's
     # own start)
